@@ -14,7 +14,7 @@ def jsonable(x, depth=0):
     """Best-effort conversion to something json.dumps accepts (witnesses)."""
     import numpy as np
 
-    if depth > 8:
+    if depth > 60:
         return repr(x)[:200]
     if x is None or isinstance(x, (bool, int, str)):
         return x
